@@ -49,7 +49,9 @@ F('Mapped_load_ctor', HPP, 'MappedPGMIndex', 'void Mapped_load_ctor(Mapped *self
   consts={'std::ios::in': ('PGMV_IOS_IN', 'int'), 'std::ios::binary': ('PGMV_IOS_BINARY', 'int')})
 FUNCS['PGMBase_value_init'] = FuncDesc('PGMBase_value_init', HPP, 'base', 'void PGMBase_value_init(Mapped *self)', ret='void')
 FUNCS['pgmv_read_member'] = FuncDesc('pgmv_read_member', HPP, 'read_member', 'void pgmv_read_member(void *dst, size_t size, FStream *in)', ret='void', static=True,
-                                     template='pgmv_read_member(&(%a0), sizeof(%a0), %p1)')
+                                     template='pgmv_read_member_%T0(&(%a0), %p1)')
+FUNCS['pgmv_read_member_size_t'] = FuncDesc('pgmv_read_member_size_t', HPP, 'read_member', 'void pgmv_read_member_size_t(size_t *dst, FStream *in)', ret='void', static=True)
+FUNCS['pgmv_read_member_K'] = FuncDesc('pgmv_read_member_K', HPP, 'read_member', 'void pgmv_read_member_K(K *dst, FStream *in)', ret='void', static=True)
 FUNCS['pgmv_read_container'] = FuncDesc('pgmv_read_container', HPP, 'read_container', 'void pgmv_read_container(size_t *count, size_t elem_size, FStream *in)', ret='void', static=True,
                                         template='pgmv_read_container(&%a0.size, sizeof(*%a0.data), %p1)')
 FUNCS['pgmv_map_file'] = FuncDesc('pgmv_map_file', HPP, 'map_file', 'K *pgmv_map_file(const char *filename, size_t file_bytes)', ret='Ptr<K>', static=True)
